@@ -3,10 +3,12 @@ package main
 import (
 	"bytes"
 	"fmt"
+	"strings"
 	"time"
 
 	abci "github.com/cometbft/cometbft/abci/types"
 	cmttypes "github.com/cometbft/cometbft/types"
+	"github.com/ethereum/go-ethereum/common"
 	"github.com/goatnetwork/goat/verifsim/simrt"
 )
 
@@ -139,6 +141,15 @@ func (c *Cmt) produceBlock(args *BlockArgs) bool {
 		typ := abci.MisbehaviorType_DUPLICATE_VOTE
 		if e.Light {
 			typ = abci.MisbehaviorType_LIGHT_CLIENT_ATTACK
+		}
+		if e.Addr != "" {
+			// evidence against a validator that signed at the evidence height but has left the set since
+			addr := common.FromHex(e.Addr)
+			if last, ok := c.Recent[string(addr)]; !ok || h-e.AgeBlocks > last {
+				continue
+			}
+			v = &cmttypes.Validator{Address: addr, VotingPower: c.RecentPower[string(addr)]}
+			w.probe("evidence-against-former-member")
 		}
 		misb = append(misb, abci.Misbehavior{Type: typ, Validator: abci.Validator{Address: v.Address, Power: v.VotingPower},
 			Height: h - e.AgeBlocks, Time: t.Add(-time.Duration(e.AgeSec) * time.Second), TotalVotingPower: c.Vals.TotalVotingPower()})
@@ -308,6 +319,14 @@ func (c *Cmt) produceBlock(args *BlockArgs) bool {
 				continue
 			}
 			w.violate("C19", "finalize-fails", finalizeShape(out, err), "height %d node %d: FinalizeBlock failed without an engine fault: panic=%v err=%v\n%s", h, n.ID, out.Panic, err, out.Stack)
+			// "the begin-/end-of-block logic never fails" is also part of C13 (locking) and C16 (relayer)
+			txt := strings.ToLower(fmt.Sprint(out.Panic, err))
+			switch {
+			case strings.Contains(txt, "voter") || strings.Contains(txt, "electproposer") || strings.Contains(txt, "relayer"):
+				w.violate("C16", "end-of-block-fails", finalizeShape(out, err), "height %d node %d: the relayer end-of-block logic failed: panic=%v err=%v", h, n.ID, out.Panic, err)
+			case strings.Contains(txt, "validator") || strings.Contains(txt, "power") || strings.Contains(txt, "locking") || strings.Contains(txt, "unlock"):
+				w.violate("C13", "begin-or-end-of-block-fails", finalizeShape(out, err), "height %d node %d: the locking begin-/end-of-block logic failed: panic=%v err=%v", h, n.ID, out.Panic, err)
+			}
 			n.crash("FinalizeBlock failed")
 			continue
 		}
